@@ -230,42 +230,51 @@ Definition inline_root_type (S : schema) (tcond root : string) : option string :
   end.
 
 (* _resolve_selection_set: (fields in order, fragments used as mixins) *)
+Definition fnode_of (al : option string) (n : string) (c : bool) (ms : list string) (sub : option (list sel))
+  : fnode := {| fn_alias := al; fn_name := n; fn_cond := c; fn_mixins := ms; fn_sub := sub |}.
+
+(* one selection of the set; [rec] resolves a nested selection set (fragment body) against a root *)
+Definition resolve_step (rec : list sel -> string -> res (list fnode * list string))
+           (S : schema) (frs : list fragdef) (root : string)
+           (acc : res (list fnode * list string)) (s : sel) : res (list fnode * list string) :=
+  p <- acc ;;
+  let '(fields, mixins) := p in
+  match s with
+  | SField al n c ms sub => Ok (fields ++ [fnode_of al n c ms sub], mixins)
+  | SSpread n _ =>
+      match lookup_frag frs n with
+      | None => Err "KeyError: fragment"
+      | Some f =>
+          match lookup_type S root, lookup_type S (fr_on f) with
+          | Some _, Some fd =>
+              if negb (unpack_fragment S f (Some root)) then Ok (fields, mixins ++ [n])
+              else if String.eqb (fr_on f) root || (is_abstract fd && is_sub_type S (fr_on f) root)
+              then q <- rec (fr_sel f) root ;;
+                   Ok (fields ++ fst q, mixins ++ snd q)
+              else Ok (fields, mixins)
+          | _, _ => Err "KeyError: type"
+          end
+      end
+  | SInline tc _ sub =>
+      (* a missing type condition means the enclosing type *)
+      match inline_root_type S (match tc with Some tc => tc | None => root end) root with
+      | Some r => q <- rec sub r ;; Ok (fields ++ fst q, mixins ++ snd q)
+      | None => Ok (fields, mixins)
+      end
+  end.
+
 Fixpoint resolve (fuel : nat) (S : schema) (frs : list fragdef) (sels : list sel) (root : string)
   : res (list fnode * list string) :=
   match fuel with
   | O => Err "fuel"
-  | S fuel' =>
-      fold_left (fun acc s =>
-        p <- acc ;;
-        let '(fields, mixins) := p in
-        match s with
-        | SField al n c ms sub =>
-            Ok (fields ++ [{| fn_alias := al; fn_name := n; fn_cond := c; fn_mixins := ms; fn_sub := sub |}],
-                mixins)
-        | SSpread n _ =>
-            match lookup_frag frs n with
-            | None => Err "KeyError: fragment"
-            | Some f =>
-                match lookup_type S root, lookup_type S (fr_on f) with
-                | Some _, Some fd =>
-                    if negb (unpack_fragment S f (Some root)) then Ok (fields, mixins ++ [n])
-                    else if String.eqb (fr_on f) root || (is_abstract fd && is_sub_type S (fr_on f) root)
-                    then q <- resolve fuel' S frs (fr_sel f) root ;;
-                         Ok (fields ++ fst q, mixins ++ snd q)
-                    else Ok (fields, mixins)
-                | _, _ => Err "KeyError: type"
-                end
-            end
-        | SInline tc _ sub =>
-            (* a missing type condition means the enclosing type *)
-            match inline_root_type S (match tc with Some tc => tc | None => root end) root with
-            | Some r => q <- resolve fuel' S frs sub r ;; Ok (fields ++ fst q, mixins ++ snd q)
-            | None => Ok (fields, mixins)
-            end
-        end) sels (Ok ([], []))
+  | S fuel' => fold_left (resolve_step (resolve fuel' S frs) S frs root) sels (Ok ([], []))
   end.
 
 (* _get_fragment_bases: the fragments a fragment class inherits from, transitively *)
+Definition append_bases (rec : string -> res (list string)) (acc : res (list string)) (b : string)
+  : res (list string) :=
+  l <- acc ;; l' <- rec b ;; Ok (l ++ l').
+
 Fixpoint fragment_bases (fuel : nat) (S : schema) (frs : list fragdef) (name : string) : res (list string) :=
   match fuel with
   | O => Err "fuel"
@@ -274,15 +283,14 @@ Fixpoint fragment_bases (fuel : nat) (S : schema) (frs : list fragdef) (name : s
       | None => Err "KeyError: fragment"
       | Some f =>
           q <- resolve fuel' S frs (fr_sel f) (fr_on f) ;;
-          fold_left (fun acc b => l <- acc ;; l' <- fragment_bases fuel' S frs b ;; Ok (l ++ l'))
-                    (snd q) (Ok (snd q))
+          fold_left (append_bases (fragment_bases fuel' S frs)) (snd q) (Ok (snd q))
       end
   end.
 
 (* _remove_inherited_fragments *)
 Definition remove_inherited (fuel : nat) (S : schema) (frs : list fragdef) (mixins : list string)
   : res (list string) :=
-  inh <- fold_left (fun acc f => l <- acc ;; l' <- fragment_bases fuel S frs f ;; Ok (l ++ l')) mixins (Ok []) ;;
+  inh <- fold_left (append_bases (fragment_bases fuel S frs)) mixins (Ok []) ;;
   Ok (filter (fun f => negb (mem f inh)) mixins).
 
 (* _get_typename_values for the class generated for related type tn *)
@@ -322,70 +330,117 @@ Definition schema_field_type (S : schema) (tn fname : string) : res gtype :=
 
 Definition mem_state := list string.   (* _public_names *)
 
-(* _parse_type_definition, with _public_names threaded *)
+(* ---- _parse_type_definition, with _public_names threaded, split into named steps ---- *)
+
+(* result of one (sub)class generation: classes, _public_names afterwards, ghost flag: true iff some
+   class was skipped because its name was already in _public_names (two selection paths mangled to
+   one class name, finding F22) *)
+Definition ptd_res := res (list pclass * mem_state * bool).
+Definition ptd_fun := mem_state -> string -> string -> list sel -> bool -> list string ->
+                      option (list string) -> ptd_res.
+
+Definition add_typename_field (add_typename : bool) (fields0 : list fnode) : list fnode :=
+  if add_typename && negb (existsb (fun f => String.eqb (fn_name f) "__typename") fields0)
+  then typename_node :: fields0 else fields0.
+
+(* mixins: the fragments used as mixins; kept: those not already inherited through another one *)
+Definition class_bases (mixins kept extra_bases : list string) : list string :=
+  (match mixins with
+   | [] => ["BaseModel"]
+   | _ => map pascal_s (sorted_set kept)
+   end) ++ extra_bases.
+
+(* annotation of one field: (annotation, context, is the typename literal) *)
+Definition field_ann_lit (C : cfg) (S : schema) (frs : list fragdef) (fuel' : nat)
+           (tvalues : option (list string)) (f : fnode) (t : gtype) (sub_class : string)
+  : res (ann * fctx * bool) :=
+  match tvalues with
+  | Some (v :: vs) =>
+      if String.eqb (fn_name f) "__typename"
+      then Ok (ALit (sort_strings (v :: vs)), ctx0, true)
+      else r <- field_type_ann C S frs fuel' (fn_sub f) t true sub_class false ;;
+           Ok (fst r, snd r, false)
+  | _ => r <- field_type_ann C S frs fuel' (fn_sub f) t true sub_class false ;;
+         Ok (fst r, snd r, false)
+  end.
+
+Definition cond_ann (is_lit cond : bool) (a0 : ann) : ann :=
+  if is_lit then a0 else if cond then (if is_opt a0 then a0 else AOpt a0) else a0.
+
+Definition mk_pfield (name key : string) (a : ann) (is_lit cond : bool) : pfield :=
+  {| p_name := name;
+     p_alias := if String.eqb name key then None else Some key;
+     p_ann := a;
+     p_default_none := negb is_lit && cond;
+     p_discriminator := is_union_ann a |}.
+
+(* the pydantic field of one resolved field node, with the context of its annotation (pure: does not
+   depend on _public_names) *)
+Definition field_pf (C : cfg) (S : schema) (frs : list fragdef) (fuel' : nat)
+           (class_name type_name : string) (tvalues : option (list string)) (f : fnode)
+  : res (pfield * fctx) :=
+  let key := field_key f in
+  let name := py_field_name C key in
+  t <- schema_field_type S type_name (fn_name f) ;;
+  let sub_class := class_name +++ pascal_s name in
+  ac <- field_ann_lit C S frs fuel' tvalues f t sub_class ;;
+  let '(a0, ctx, is_lit) := ac in
+  Ok (mk_pfield name key (cond_ann is_lit (fn_cond f) a0) is_lit (fn_cond f), ctx).
+
+(* _parse_field_selection_set_types: one class per related type of the field's annotation *)
+Definition parse_sub_step (rec : ptd_fun) (S : schema) (ctx : fctx) (f : fnode) (sub : list sel)
+           (acc2 : ptd_res) (rc : related) : ptd_res :=
+  st2 <- acc2 ;;
+  let '(cls, pub2, sk2) := st2 in
+  q <- rec pub2 (r_class rc) (r_type rc) sub (x_abstract ctx) (fn_mixins f)
+           (Some (typename_values S (x_related ctx) (r_type rc))) ;;
+  let '(qc, qp, qs) := q in
+  Ok (cls ++ qc, qp, sk2 || qs).
+
+Definition parse_subs (rec : ptd_fun) (S : schema) (ctx : fctx) (f : fnode) (pub : mem_state) : ptd_res :=
+  match fn_sub f with
+  | None => Ok ([], pub, false)
+  | Some sub => fold_left (parse_sub_step rec S ctx f sub) (x_related ctx) (Ok ([], pub, false))
+  end.
+
+Definition fields_state := (list pfield * list pclass * mem_state * bool)%type.
+
+Definition parse_field_step (rec : ptd_fun) (C : cfg) (S : schema) (frs : list fragdef) (fuel' : nat)
+           (class_name type_name : string) (tvalues : option (list string))
+           (acc : res fields_state) (f : fnode) : res fields_state :=
+  st <- acc ;;
+  let '(pfs, extra, pub, sk) := st in
+  pc <- field_pf C S frs fuel' class_name type_name tvalues f ;;
+  let '(pf, ctx) := pc in
+  ex <- parse_subs rec S ctx f pub ;;
+  let '(exc, exp, exs) := ex in
+  Ok (pfs ++ [pf], extra ++ exc, exp, sk || exs).
+
+Definition parse_body (rec : ptd_fun) (C : cfg) (S : schema) (frs : list fragdef) (fuel' : nat)
+           (pub : mem_state) (class_name type_name : string) (sels : list sel)
+           (add_typename : bool) (extra_bases : list string) (tvalues : option (list string)) : ptd_res :=
+  if mem class_name pub then Ok ([], pub, true)
+  else
+    let pub := pub ++ [class_name] in
+    rf <- resolve fuel' S frs sels type_name ;;
+    let '(fields0, mixins) := rf in
+    let fields := add_typename_field add_typename fields0 in
+    kept <- remove_inherited fuel' S frs mixins ;;
+    let bases := class_bases mixins kept extra_bases in
+    r <- fold_left (parse_field_step rec C S frs fuel' class_name type_name tvalues) fields
+                   (Ok ([], [], pub, false)) ;;
+    let '(pfs, extra, pub, sk) := r in
+    Ok ({| c_name := class_name; c_bases := bases; c_fields := pfs |} :: extra, pub, sk).
+
 Fixpoint parse_type_def (fuel : nat) (C : cfg) (S : schema) (frs : list fragdef)
          (pub : mem_state) (class_name type_name : string) (sels : list sel)
          (add_typename : bool) (extra_bases : list string) (tvalues : option (list string))
-  : res (list pclass * mem_state * bool) :=
-  (* third component: ghost flag, true iff some class was skipped because its name was already
-     in _public_names (two selection paths mangled to one class name, finding F22) *)
+  : ptd_res :=
   match fuel with
   | O => Err "fuel"
   | S fuel' =>
-      if mem class_name pub then Ok ([], pub, true)
-      else
-        let pub := pub ++ [class_name] in
-        rf <- resolve fuel' S frs sels type_name ;;
-        let '(fields0, mixins) := rf in
-        let fields :=
-          if add_typename && negb (existsb (fun f => String.eqb (fn_name f) "__typename") fields0)
-          then typename_node :: fields0 else fields0 in
-        kept <- remove_inherited fuel' S frs mixins ;;
-        let bases := (match mixins with
-                      | [] => ["BaseModel"]
-                      | _ => map pascal_s (sorted_set kept)
-                      end) ++ extra_bases in
-        r <- fold_left (fun acc f =>
-               st <- acc ;;
-               let '(pfs, extra, pub, sk) := st in
-               let key := field_key f in
-               let name := py_field_name C key in
-               t <- schema_field_type S type_name (fn_name f) ;;
-               let sub_class := class_name +++ pascal_s name in
-               ac <- (match tvalues with
-                      | Some (v :: vs) =>
-                          if String.eqb (fn_name f) "__typename"
-                          then Ok (ALit (sort_strings (v :: vs)), ctx0, true)
-                          else r <- field_type_ann C S frs fuel' (fn_sub f) t true sub_class false ;;
-                               Ok (fst r, snd r, false)
-                      | _ => r <- field_type_ann C S frs fuel' (fn_sub f) t true sub_class false ;;
-                             Ok (fst r, snd r, false)
-                      end) ;;
-               let '(a0, ctx, is_lit) := ac in
-               let a := if is_lit then a0
-                        else if fn_cond f then (if is_opt a0 then a0 else AOpt a0) else a0 in
-               let pf := {| p_name := name;
-                            p_alias := if String.eqb name key then None else Some key;
-                            p_ann := a;
-                            p_default_none := negb is_lit && fn_cond f;
-                            p_discriminator := is_union_ann a |} in
-               (* _parse_field_selection_set_types *)
-               ex <- (match fn_sub f with
-                      | None => Ok ([], pub, false)
-                      | Some sub =>
-                          fold_left (fun acc2 rc =>
-                            st2 <- acc2 ;;
-                            let '(cls, pub2, sk2) := st2 in
-                            q <- parse_type_def fuel' C S frs pub2 (r_class rc) (r_type rc) sub
-                                   (x_abstract ctx) (fn_mixins f)
-                                   (Some (typename_values S (x_related ctx) (r_type rc))) ;;
-                            let '(qc, qp, qs) := q in
-                            Ok (cls ++ qc, qp, sk2 || qs)) (x_related ctx) (Ok ([], pub, false))
-                      end) ;;
-               let '(exc, exp, exs) := ex in
-               Ok (pfs ++ [pf], extra ++ exc, exp, sk || exs)) fields (Ok ([], [], pub, false)) ;;
-        let '(pfs, extra, pub, sk) := r in
-        Ok ({| c_name := class_name; c_bases := bases; c_fields := pfs |} :: extra, pub, sk)
+      parse_body (parse_type_def fuel' C S frs) C S frs fuel' pub class_name type_name sels
+                 add_typename extra_bases tvalues
   end.
 
 Inductive defn :=
@@ -398,13 +453,18 @@ Definition root_type_name (S : schema) (kind : string) : res string :=
            else if String.eqb kind "subscription" then s_subscription S else None in
   match o with Some n => Ok n | None => Err "NotSupported: operation type" end.
 
+(* the root class generation of an operation, with the final _public_names and the ghost flag *)
+Definition op_parse (fuel : nat) (C : cfg) (S : schema) (frs : list fragdef)
+           (kind name : string) (mixins : list string) (sels : list sel) : ptd_res :=
+  tn <- root_type_name S kind ;;
+  parse_type_def fuel C S frs [] (pascal_s name) tn sels false mixins None.
+
 (* ResultTypesGenerator.__init__: the classes of one operation / fragment module entry *)
 Definition result_classes (fuel : nat) (C : cfg) (S : schema) (frs : list fragdef) (d : defn)
   : res (list pclass) :=
   match d with
   | DOp kind name mixins sels =>
-      tn <- root_type_name S kind ;;
-      r <- parse_type_def fuel C S frs [] (pascal_s name) tn sels false mixins None ;;
+      r <- op_parse fuel C S frs kind name mixins sels ;;
       Ok (fst (fst r))
   | DFrag f =>
       if unpack_fragment S f None then Ok []
